@@ -1,5 +1,5 @@
 import RxModel.PipeSubscribe
-import RxProofs.C03
+import RxProofs.Lemmas.PipeProducers
 /-!
 # C14 — early termination cancels synchronous infinite sources
 
@@ -90,7 +90,7 @@ theorem immediate_scheduler_diverges (n fuel : Nat) :
 /-- link to the loop model of C03: the polling loop with the downstream disposing at its n-th element. -/
 theorem fromIter_take (xs : List Nat) (n : Nat) (hn : 1 ≤ n) (hlen : n ≤ xs.length) :
     (fromIter (fun i => i + 1 == n) 0 false xs).2 = n := by
-  have := C03.fromIterable_polls (fun i => i + 1 == n) xs (n - 1) 0 (by omega)
+  have := Pipe.fromIterable_polls (fun i => i + 1 == n) xs (n - 1) 0 (by omega)
     (by intro j hj; simp; omega) (by simp; omega)
   rw [this]; simp; omega
 
